@@ -293,11 +293,11 @@ def standard_units(tier: str, family=None, deciders=("maxdepth", "full", "pigrow
     fam = family if family is not None else G.general_family(tier)
     us = []
     for spec in fam:
-        for dec in deciders:
+        for dec in (deciders if not spec.get("stringify") else deciders[:1]):
             for off in (0, 1) if tier == "quick" else (0, 1, 2):
                 us.append({"kind": "tree-create", "spec": spec, "decider": dec, "depth_off": off,
                            "max_execs": 1500 if tier == "quick" else 20000})
-        if with_pt:
+        if with_pt and not spec.get("stringify"):
             us.append({"kind": "tree-create", "spec": spec, "decider": "pt", "depth_off": 0, "horizon": 40,
                        "max_execs": 400 if tier == "quick" else 5000})
     small = [s for s in fam if s["name"].split(":")[0] in
@@ -311,6 +311,8 @@ def standard_units(tier: str, family=None, deciders=("maxdepth", "full", "pigrow
             us.append({"kind": "map", "spec": spec, "rep": rep, "depth_off": 1, "L": 3 if tier == "quick" else 4,
                        "max_execs": 20 if tier == "quick" else 100})
         for rep in reps_e2:
+            if spec.get("stringify") and rep not in ("tree", "stack"):
+                continue
             us.append({"kind": "e2", "spec": spec, "rep": rep, "depth_off": 1, "L": 3 if rep == "stack" else 2,
                        "K": 2 if tier == "quick" else 3,
                        "max_states": 25 if tier == "quick" else 80,
